@@ -147,6 +147,17 @@ def _cases_core(rng, tier):
                 a = indep_encode(hrp, ver, pr)
                 yield "b32_dec %s %s" % (sx(hrp), sx(a)), "hrp-class-decode"
                 yield "b32_dec %s %s" % (sx(hrp.upper()), sx(a.upper())), "hrp-class-decode-upper"
+    # total length around the 90-character limit for EVERY program length: the prefix length is chosen so that the
+    # address has 88 .. 92 characters
+    for ln in ([20, 32, 2, 3, 33, 39, 40] if tier == "quick" else list(range(2, 41))):
+        ver = 0 if ln in (20, 32) else rng.choice([1, 2, 16])
+        for total in (89, 90, 91, 92):
+            hl = total - (1 + 1 + (ln * 8 + 4) // 5 + 6)
+            if 1 <= hl <= 90:
+                hrp = "".join(rng.choice("abcdefgh") for _ in range(hl))
+                pr = rb(ln)
+                yield "b32_enc %s %d %s" % (sx(hrp), ver, hx(pr)), "length-limit-%d" % total
+                yield "b32_dec %s %s" % (sx(hrp), sx(indep_encode(hrp, ver, pr))), "length-limit-decode-%d" % total
     for a in VALID + INVALID:
         for h in ("bc", "tb"):
             yield "b32_dec %s %s" % (sx(h), sx(a)), "dec-vector"
